@@ -1,5 +1,6 @@
 pub mod data;
 pub mod reflex;
+pub mod treecheck;
 pub mod pipeline;
 pub mod optable;
 pub mod refparse;
